@@ -337,6 +337,8 @@ enum Op {
     Entries(usize),
     Keys(usize),
     Values(usize),
+    /// `d %dict.iter %iter.count` — the iterator export, consumed by counting
+    IterCount(usize),
 }
 
 impl Op {
@@ -355,6 +357,7 @@ impl Op {
             Op::Entries(..) => "entries",
             Op::Keys(..) => "keys",
             Op::Values(..) => "values",
+            Op::IterCount(..) => "iter-count",
         }
     }
     fn model_req(&self) -> String {
@@ -375,10 +378,20 @@ impl Op {
             Op::Entries(v) => format!("entries {v}"),
             Op::Keys(v) => format!("keys {v}"),
             Op::Values(v) => format!("values {v}"),
+            // `iter` is `entries` handed out one by one: the model has no separate definition, its
+            // count is `count`
+            Op::IterCount(v) => format!("count {v}"),
+        }
+    }
+    /// line format of corpus / replay files
+    fn line(&self) -> String {
+        match self {
+            Op::IterCount(v) => format!("itercount {v}"),
+            o => o.model_req(),
         }
     }
     fn to_json(&self) -> serde_json::Value {
-        json!(self.model_req())
+        json!(self.line())
     }
 }
 
@@ -472,6 +485,7 @@ fn parse_op(line: &str) -> Option<Op> {
         "entries" => Op::Entries(n(1)?),
         "keys" => Op::Keys(n(1)?),
         "values" => Op::Values(n(1)?),
+        "itercount" => Op::IterCount(n(1)?),
         _ => return None,
     })
 }
@@ -692,7 +706,13 @@ fn gen_history(r: &mut Rng, ks: &KeySets, max_ops: usize) -> History {
             match r.below(10) {
                 0..=4 => Op::Get(v, k),
                 5 => Op::Has(v, k),
-                6 => Op::Count(v),
+                6 => {
+                    if r.chance(1, 4) {
+                        Op::IterCount(v)
+                    } else {
+                        Op::Count(v)
+                    }
+                }
                 7 => Op::Entries(v),
                 8 => Op::Keys(v),
                 _ => Op::Values(v),
@@ -788,6 +808,10 @@ fn program(h: &History) -> (String, usize, usize) {
             }
             Op::Values(v) => {
                 s.push_str(&format!("o{obs} = d{v} %dict.values,\n"));
+                obs += 1;
+            }
+            Op::IterCount(v) => {
+                s.push_str(&format!("o{obs} = d{v} %dict.iter %iter.count,\n"));
                 obs += 1;
             }
         }
@@ -1163,7 +1187,7 @@ fn host_run(h: &History) -> (Vec<Expect>, Vec<HostMap>) {
             }
             Op::Get(v, k) => obs.push(Expect::Val(vers[*v].get(k).copied())),
             Op::Has(v, k) => obs.push(Expect::Has(vers[*v].contains_key(k))),
-            Op::Count(v) => obs.push(Expect::Count(vers[*v].len())),
+            Op::Count(v) | Op::IterCount(v) => obs.push(Expect::Count(vers[*v].len())),
             Op::Entries(v) => obs.push(Expect::Entries(vers[*v].iter().map(|(k, x)| (k.clone(), *x)).collect())),
             Op::Keys(v) => obs.push(Expect::Keys(vers[*v].keys().cloned().collect())),
             Op::Values(v) => {
@@ -1433,7 +1457,7 @@ fn drop_op(h: &History, i: usize) -> Option<History> {
         };
         for o in ops.iter_mut().skip(i) {
             match o {
-                Op::Put(v, ..) | Op::Remove(v, ..) | Op::Get(v, ..) | Op::Has(v, ..) | Op::Count(v) | Op::Entries(v) | Op::Keys(v) | Op::Values(v) => f(v),
+                Op::Put(v, ..) | Op::Remove(v, ..) | Op::Get(v, ..) | Op::Has(v, ..) | Op::Count(v) | Op::Entries(v) | Op::Keys(v) | Op::Values(v) | Op::IterCount(v) => f(v),
                 Op::Merge(a, b2) => {
                     f(a);
                     f(b2);
@@ -1707,7 +1731,7 @@ fn main() {
         let mut ver = 1usize;
         for o in &h.ops {
             let used = match o {
-                Op::Put(v, ..) | Op::Remove(v, ..) | Op::Get(v, ..) | Op::Has(v, ..) | Op::Count(v) | Op::Entries(v) | Op::Keys(v) | Op::Values(v) | Op::Merge(v, _) => Some(*v),
+                Op::Put(v, ..) | Op::Remove(v, ..) | Op::Get(v, ..) | Op::Has(v, ..) | Op::Count(v) | Op::Entries(v) | Op::Keys(v) | Op::Values(v) | Op::IterCount(v) | Op::Merge(v, _) => Some(*v),
                 Op::From(_) => None,
             };
             if let Some(u) = used {
